@@ -42,9 +42,9 @@ PROGRAM_OF = {"misc/e2undo.c": "e2undo", "debugfs/journal.c": "debugfs"}
 
 
 def collect(world, thorough=False):
-    """-> (sinks, guards): sinks {key: n_guards}, guards {(function key, shape)}"""
+    """-> (sinks, guards): sinks {key: n_guards}, guards {(function key, shape): number of tests of that shape}"""
     sinks = {}
-    guards = set()
+    gsites = {}
     n_fn = 0
     for (file, names) in SCOPE:
         prog = world.program(PROGRAM_OF.get(file, "e2fsck"), plain=True)
@@ -70,7 +70,7 @@ def collect(world, thorough=False):
                     # ordering comparisons are bounds checks by form; equality / truth tests are recorded only
                     # when they control a sink (below)
                     if " < " in sh or " <= " in sh:
-                        guards.add((fkey, sh))
+                        gsites.setdefault((fkey, sh), set()).add(bid)
             for (node, kind, op, src, expr) in ft.sinks():
                 srcs = ",".join(sorted(src))
                 key = (fkey, kind, op, srcs)
@@ -78,18 +78,19 @@ def collect(world, thorough=False):
                 for (bid, truth, atom) in fn.control_literals(node):
                     if bid in lits and (ft.sources(atom) & ft.sources(expr) or T.vars_in(atom) & T.vars_in(expr)):
                         g += 1
-                        guards.add((fkey, lits[bid]))
+                        gsites.setdefault((fkey, lits[bid]), set()).add(bid)
                 sinks[key] = max(sinks.get(key, 0), g) if key in sinks else g
                 # several sites with the same key: the weakest one counts
                 if key in sinks:
                     sinks[key] = min(sinks[key], g)
+    guards = {k: len(v) for k, v in gsites.items()}
     return sinks, guards, n_fn
 
 
 def load_ref():
     if not os.path.exists(REF):
         raise Broken("reference rules/ref/c06_instances.tsv missing")
-    sinks, guards = {}, set()
+    sinks, guards = {}, {}
     for line in open(REF):
         line = line.rstrip("\n")
         if not line or line.startswith("#"):
@@ -98,7 +99,7 @@ def load_ref():
         if p[0] == "sink":
             sinks[(p[1], p[2], p[3], p[4])] = int(p[5])
         elif p[0] == "guard":
-            guards.add((p[1], p[2]))
+            guards[(p[1], p[2])] = int(p[3]) if len(p) > 3 else 1
     return sinks, guards
 
 
@@ -108,11 +109,11 @@ def write_ref(world):
     with open(REF, "w") as f:
         f.write("# C06 reference instances derived from the pinned tree (semantic keys only).\n"
                 "# sink\\tfile:function\\tclass\\top\\ton-disk source fields\\tnumber of dominating comparisons on the value\n"
-                "# guard\\tfile:function\\tcanonical comparison shape (locals resolved or numbered; > rewritten as <)\n")
+                "# guard\\tfile:function\\tcanonical comparison shape (locals resolved or numbered; every ordering test rewritten as a strict <, polarity dropped)\tnumber of tests of that shape\n")
         for k in sorted(sinks):
             f.write("sink\t%s\t%s\t%s\t%s\t%d\n" % (k[0], k[1], k[2], k[3], sinks[k]))
         for g in sorted(guards):
-            f.write("guard\t%s\t%s\n" % g)
+            f.write("guard\t%s\t%s\t%d\n" % (g[0], g[1], guards[g]))
     return len(sinks), len(guards), n_fn
 
 
@@ -144,10 +145,11 @@ def run(world, rep, tier, only=None):
     for (f, sh) in guards:
         byfn.setdefault(f, set()).add(sh)
     for (f, sh) in sorted(rg):
-        ok = sh in byfn.get(f, set())
+        ok = guards.get((f, sh), 0) >= rg[(f, sh)]
         rep.ob("C06.a", "%s:guard %s" % (f, sh), ok,
-               "comparison on untrusted value still present with the same operands and direction%s" %
-               ("" if ok else "; comparisons now in this function: %s" % sorted(byfn.get(f, set()))[:6]))
+               "comparison on untrusted value still present with the same operands and strictness, %d time(s) (reference %d)%s" %
+               (guards.get((f, sh), 0), rg[(f, sh)],
+                "" if ok else "; comparisons now in this function: %s" % sorted(byfn.get(f, set()))[:6]))
     # new unguarded sinks: notes only
     new_unguarded = [k for k in sinks if k not in rs and sinks[k] == 0]
     for k in sorted(new_unguarded)[:20]:
